@@ -41,7 +41,7 @@ for l in open(os.path.join(pend, "confirm.log")):
         confirm[f[0]] = l.strip()
 own_log = parse_log(os.path.join(pend, "detect_own.log"))
 # the last sweeps against the committed machinery (checklib/psweep.py): rounds 1-5, then round 6 (+ the one change the first missed)
-for fn in ("detect_own_final.log", "detect_own_r6_final.log"):
+for fn in ("detect_own_final.log", "detect_own_r6_final.log", "detect_own_r6_final2.log"):
     own_log.update(parse_log(os.path.join(pend, fn)))
 full = {}
 for fn in ("detect.log", "detect_r2.log", "detect_r3.log", "detect_own_r4.log", "detect_own_r5.log", "detect_own_r6.log"):
